@@ -19,7 +19,7 @@ ASSUMPTIONS = []
 
 def plan(tier):
     q = tier == 'quick'
-    return [('like', 300 if q else 5000, {})]
+    return [('like', 300 if q else 5000, {}), ('kwmodel', 800 if q else 20000, {})]
 
 
 def search_plan(tier, disagreements):
@@ -30,8 +30,125 @@ def strip_header(t4):
     return '\n'.join(l for l in t4.splitlines() if not l.startswith('//'))
 
 
+TRTABLE = {k: [float(10 * k + i) for i in range(12)] for k in range(1, 6)}
+
+
+def code_keywords(tokens):
+    """parse_keywords of the real ParseMCNPCell on option tokens; canonical dict or ('error', class)"""
+    from t4_geom_convert.Kernel.FileHandlers.Parser.ParseMCNPCell import ParseMCNPCell
+    obj = ParseMCNPCell.__new__(ParseMCNPCell)
+    obj.transforms = TRTABLE
+    kws = obj.parse_keywords(list(reversed(tokens)))
+    return {'imp': dict(kws['imp_by_particle'] or {}), 'u': kws['u'], 'mat': kws['material'], 'rho': kws['density'],
+            'lat': kws['lattice'], 'f_univs': kws['f_univs'], 'f_params': kws['f_params'], 'trcl': kws['trcl'],
+            'f_bounds': kws['f_bounds']}
+
+
+def expected_from_model(resp):
+    """what the code must return if it agrees with the model's record (the numeric post-processing of the
+    values — to_float, int(float()), the TR table lookup, the identity matrix appended to 3 numbers — is
+    applied here, it is not part of the keyword logic)"""
+    from MIP.mip.utils import to_float
+    kv = dict(x.split('=', 1) for x in resp.split()[1:])
+    out = {}
+    out['imp'] = {} if kv['imp'] == '-' else {bytes.fromhex(a).decode(): to_float(b) for a, b in
+                                              (x.split(':') for x in kv['imp'].split(','))}
+    out['u'] = None if kv['u'] == '-' else int(float(kv['u']))
+    out['mat'] = None if kv['mat'] == '-' else kv['mat']
+    out['rho'] = None if kv['rho'] == '-' else kv['rho']
+    out['lat'] = None if kv['lat'] == '-' else int(kv['lat'])
+
+    def tr(ps, star):
+        ps = [to_float(x) for x in ps]
+        if not ps and star:        # starred keyword without numbers: normalize_transform([]) = identity
+            return (0., 0., 0., 1., 0., 0., 0., 1., 0., 0., 0., 1.)
+        if len(ps) == 1:
+            return tuple(TRTABLE[int(ps[0])][:12])
+        if len(ps) == 3:
+            return tuple(ps + [1., 0., 0., 0., 1., 0., 0., 0., 1.])
+        return () if not ps else 'not-compared'   # other counts go through normalize_transform (C04)
+    if kv['fill'] == '-':
+        out['f_univs'], out['f_params'] = None, None
+    else:
+        f = kv['fill'].split(',')
+        out['f_univs'], out['f_params'] = int(float(f[1])), tr(f[2:], f[0] == '1')
+    out['trcl'] = None if kv['trcl'] == '-' else tr(kv['trcl'].split(',')[1:], kv['trcl'].split(',')[0] == '1')
+    out['f_bounds'] = None
+    return out
+
+
+def kw_tokens(rng):
+    """option tokens as parse_one_cell_worker hands them to parse_keywords (lower case, '=' and parentheses
+    blanked), base options followed by 0-2 BUT option lists"""
+    def one():
+        k = rng.choice(['imp', 'imp', 'u', 'mat', 'rho', 'lat', 'fill', 'fill', 'trcl', 'trcl', 'other'])
+        num = lambda: rng.choice(['0', '1', '2', '3', '1.5', '-2.5', '4.', '1e0', '+2', '.5'])  # noqa
+        if k == 'imp':
+            return [rng.choice(['imp:n', 'imp:p', 'imp:n,p', 'imp:p,n,e', 'imp:e']), rng.choice(['0', '1', '2', '0.5', '4'])]
+        if k == 'u':
+            return ['u', rng.choice(['1', '2', '3', '10'])]
+        if k == 'mat':
+            return ['mat', rng.choice(['1', '2', '7'])]
+        if k == 'rho':
+            return ['rho', rng.choice(['-1.0', '-2.50', '0.05', '1.5-2', '-1.'])]
+        if k == 'lat':
+            return ['lat', rng.choice(['1', '2', '1', '3'])]
+        if k == 'fill':
+            n = rng.choice([0, 0, 1, 3])
+            ps = [rng.choice(['1', '2', '3', '4', '5'])] if n == 1 else [num() for _ in range(n)]
+            return [rng.choice(['fill', '*fill']), rng.choice(['1', '2', '3'])] + ps
+        if k == 'trcl':
+            n = rng.choice([0, 1, 3, 3])
+            ps = [rng.choice(['1', '2', '3', '4', '5'])] if n == 1 else [num() for _ in range(n)]
+            return [rng.choice(['trcl', '*trcl'])] + ps
+        return [rng.choice(['tmp', 'vol', 'pwt', 'nonu', 'ext:n']), rng.choice(['1', '2.5'])]
+    toks = []
+    for _ in range(rng.randint(1, 3)):         # base + BUT lists
+        for _ in range(rng.randint(0, 4)):
+            toks += one()
+    if rng.random() < 0.08 and toks:
+        toks = toks[:-1]                        # a keyword without its value at the end
+    return toks
+
+
+def kwmodel_case(seed, rng, ctx):
+    toks = kw_tokens(rng)
+    key = h(tuple(toks))
+    try:
+        code = code_keywords(toks)
+    except Exception as e:  # noqa
+        code = ('error', type(e).__name__)
+    resp = ctx['drv'].ask('kwmodel ' + ' '.join(toks)) if toks else 'ok imp=- u=- mat=- rho=- lat=- fill=- trcl=-'
+    fails = []
+
+    def dis(msg):
+        fails.append(fail('disagreement', 'options %r: %s' % (toks, msg), {'stream': 'kwmodel'}, {'tokens': toks}))
+    if resp.startswith('ok error'):
+        if not isinstance(code, tuple):
+            dis('model: %s, code gives %r' % (resp, code))
+    elif not resp.startswith('ok'):
+        dis('driver: ' + resp)
+    else:
+        try:
+            exp = expected_from_model(resp)
+        except Exception as e:  # noqa  (value the post-processing rejects, e.g. lat=3 handled below)
+            exp = ('error', type(e).__name__)
+        if isinstance(exp, dict) and exp['lat'] not in (None, 1, 2):
+            exp = ('error', 'ParseMCNPCellError')
+        if isinstance(exp, tuple) or isinstance(code, tuple):
+            if not (isinstance(exp, tuple) and isinstance(code, tuple)):
+                dis('model+post %r / code %r' % (exp, code))
+        elif any(exp[k] != code[k] for k in exp if exp[k] != 'not-compared'):
+            dis('model+post %r / code %r' % (exp, code))
+    return dict(hashes=[key], nontrivial_hashes=[key] if len(toks) > 2 else [],
+                dist={'kwmodel:error' if isinstance(code, tuple) else 'kwmodel:ok': 1, 'kwmodel:tokens': len(toks)},
+                sample={'tokens': toks, 'code': repr(code)[:300]}, failures=fails)
+
+
 def run_case(stream, seed, ctx, params):
     rng = random.Random(seed)
+    if stream == 'kwmodel':
+        return kwmodel_case(seed, rng, ctx)
     if rng.random() < 0.5:
         d = G.build_flat_deck(rng, macro_p=0.1, ncells=rng.randint(2, 4), imp0_p=0.1)
         keys = ['mat', 'rho', 'trcl', 'imp']
@@ -80,4 +197,12 @@ def run_case(stream, seed, ctx, params):
                 sample={'like-cards': [c.hints['raw'] for c in new]}, failures=fails[:4])
 
 
-replay = replay_deck
+def replay(payload, ctx):
+    p = payload.get('payload') or {}
+    if 'tokens' in p:
+        try:
+            code = repr(code_keywords(p['tokens']))
+        except Exception as e:  # noqa
+            code = 'raises %s: %s' % (type(e).__name__, e)
+        return {'code': code, 'model': ctx['drv'].ask('kwmodel ' + ' '.join(p['tokens']))}
+    return replay_deck(payload, ctx)
